@@ -11,6 +11,8 @@
 #include "chunk.h"
 #include "uncrustify.h"
 
+#include <algorithm>
+
 using std::vector;
 
 
@@ -19,9 +21,14 @@ void remove_duplicate_include()
    LOG_FUNC_ENTRY();
 
    vector<Chunk *> includes;
+   // the #if / #else branches the walk is in (one id per branch) and those of the remembered #include:
+   // an #include makes a later one redundant only if it lies in the same or in an enclosing branch
+   vector<size_t> branches;
+   vector<size_t> includes_branches;
+   size_t         branch_id = 0;
 
-   Chunk           *preproc = Chunk::NullChunkPtr;
-   Chunk           *pc      = Chunk::GetHead();
+   Chunk          *preproc = Chunk::NullChunkPtr;
+   Chunk          *pc      = Chunk::GetHead();
 
    while (pc->IsNotNullChunk())
    {
@@ -33,6 +40,24 @@ void remove_duplicate_include()
       {
          preproc = pc;
       }
+      else if (pc->Is(CT_PP_IF))
+      {
+         branches.push_back(++branch_id);
+      }
+      else if (pc->Is(CT_PP_ELSE))
+      {
+         if (!branches.empty())
+         {
+            branches.back() = ++branch_id;
+         }
+      }
+      else if (pc->Is(CT_PP_ENDIF))
+      {
+         if (!branches.empty())
+         {
+            branches.pop_back();
+         }
+      }
       else if (pc->Is(CT_PP_INCLUDE))
       {
          Chunk *next = pc->GetNext();
@@ -43,6 +68,7 @@ void remove_duplicate_include()
          if (includes.empty())
          {
             includes.push_back(next);
+            includes_branches = branches;
             // goto next newline
             pc = next->GetNextNl();
          }
@@ -61,7 +87,9 @@ void remove_duplicate_include()
                //        __func__, __LINE__, next->Text());
                //LOG_FMT(LRMRETURN, "%s(%d): current->Text() is '%s'\n",
                //        __func__, __LINE__, current->Text());
-               if (std::strcmp(next->Text(), current->Text()) == 0)
+               if (  std::strcmp(next->Text(), current->Text()) == 0
+                  && includes_branches.size() <= branches.size()
+                  && std::equal(includes_branches.begin(), includes_branches.end(), branches.begin()))
                {
                   // erase the statement
                   Chunk *temp    = pc;
